@@ -173,3 +173,17 @@ def straddle_tie(scores, cands, m):
         geq = count_true([ge(scores[x], scores[c]) for x in cands])
         conds.append(AND(lt(g, m), gt(geq, m)))
     return OR(*conds)
+
+
+NESTED3 = {"A": "W1", "B": "W10", "C": "W"}
+NESTED4 = {"A": "W1", "B": "W10", "C": "W", "D": "W100"}
+
+
+def rename_family(fam, ren):
+    """the same shapes over candidate names that contain one another (whole-name matching must not be
+    replaced by substring matching anywhere)"""
+    return [[[ren.get(c, c) for c in p] for p in shape] for shape in fam]
+
+
+def rename_cands(cands, ren):
+    return [ren.get(c, c) for c in cands]
